@@ -26,8 +26,7 @@ def motif_ok(a):
     M = motif_tensor(a)
     conds = [O.eq(M.shape[1], a.X.shape[1])]
     if isinstance(m, SStr):
-        i = z3.Int(O.fresh_name('mi'))
-        conds.append(Not(z3.Exists([i], And(0 <= i, i < m.length, m.code(i) < 0))))
+        conds.append(Not(O.exists_box([m.length], lambda i: m.code(i) < 0)))
         conds.append(m.length >= 1)
     return And(*conds)
 
